@@ -183,6 +183,7 @@ func (c16) Case(c *core.Ctx) {
 	defer ResetDefaults()
 	defer verifyKept(c, "c16-retained-output-changed")
 	c.Eval()
+	failedCalls(c, 8)
 
 	var content map[string]interface{}
 	isSeq := false
@@ -212,6 +213,10 @@ func (c16) Case(c *core.Ctx) {
 		}
 		if st.nullAttr {
 			return // a null attribute is an unspecified cell of the encoders (C03)
+		}
+		if r.Intn(4) == 0 {
+			// equal Maps "however they were built": one sub-map object stored in two places vs. the tree-shaped copies
+			c.Add("content:aliased-submaps", int64(jv.Alias(r, m, 1+r.Intn(2), func(k string) bool { return strings.HasPrefix(k, "-") || k == "#text" })))
 		}
 		content, domain = m, "C03"
 	default:
